@@ -104,6 +104,28 @@ extern "C" int vf_run_case(const uint8_t * data, size_t size)
          if ((UMIsMessageValid(&um))&&(cbuild::BuildUM(&um, mod))) {UGOutgoingMessagePrepared(&ug, &um); std::string o3; for (int r=0; (r<100)&&(UGHasBytesToOutput(&ug)); r++) (void) UGDoOutput(&ug, ~0u, CapSend, &o3); if (o3 != expect) vf::Fail("micro gateway frame differs from the C++ gateway's: %s vs %s", vf::Hex(o3.data(), o3.size(), 24).c_str(), vf::Hex(expect.data(), expect.size(), 24).c_str());}
       }
    }
+   // --- the micro gateway's frame *stream*: the same Message queued several times into a small output buffer that a slow transport drains a few bytes per call
+   //     (so frames are partly sent, the buffer is compacted and refilled); the bytes on the wire must be the C++ gateway's frames, back to back
+   if ((microBuilt)&&(fs <= 1500))
+   {
+      std::string frame(8, 0); for (int i=0; i<4; i++) {frame[i] = (char)(fs>>(8*i)); frame[4+i] = (char)(1164862256u>>(8*i));}
+      const std::string one = frame+b;
+      const uint32 B = (uint32)(2*one.size()+8+(cfg&31)); std::vector<uint8> inb(64), outb(B); UMessageGateway ug; UGGatewayInitialize(&ug, &inb[0], (uint32)inb.size(), &outb[0], B);
+      const uint32 perCall = 1+((uint32)(cfg>>2)*7u)%(uint32)(one.size()+3); std::string wire; uint32 queued = 0, refused = 0; const uint32 want = 5;
+      for (int r=0; (r<100000)&&((queued < want)||(UGHasBytesToOutput(&ug))); r++)
+      {
+         if (queued < want)
+         {
+            UMessage um = UGGetOutgoingMessage(&ug, mod.what);
+            if (UMIsMessageValid(&um)) {if (cbuild::BuildUM(&um, mod)) {UGOutgoingMessagePrepared(&ug, &um); queued++;} else {UGOutgoingMessageCancelled(&ug, &um); refused++;}}     // (no room for the whole Message yet: cancel and drain some more)
+         }
+         if (UGDoOutput(&ug, perCall, CapSend, &wire) < 0) vf::Fail("UGDoOutput reported an error");
+         if (r == 99999) vf::Fail("micro gateway never finished sending %u queued frames", queued);
+      }
+      std::string expectStream; for (uint32 i=0; i<queued; i++) expectStream += one;
+      if (wire != expectStream) {size_t d = 0; while((d < wire.size())&&(d < expectStream.size())&&(wire[d] == expectStream[d])) d++; vf::Fail("micro gateway frame stream (%u frames of %zu bytes through a %u-byte output buffer, %u bytes per send call) differs from the C++ gateway's frames at offset %zu (sizes %zu vs %zu)", queued, one.size(), B, perCall, d, wire.size(), expectStream.size());}
+      vf::Count("micro_gateway_frame_streams_checked"); if (refused) vf::Count("micro_gateway_stream_with_buffer_full_episodes");
+   }
    // --- batch for the Python peer
    if ((g_emit)&&(o.pythonSafe)&&(g_emitted < 6000))
    {
